@@ -70,6 +70,14 @@ pub fn stub_waker_wake_by_ref(w: &Waker) {
 pub fn stub_waker_drop(_w: &mut Waker) {}
 
 // ------------------------------------------------------------------------------------------
+// `std::panic::catch_unwind`: kani-compiler 0.68 ICEs on the `catch_unwind` intrinsic
+// (intrinsics.rs:243). Kani aborts on the first panic anyway, so "run the closure" is the exact model.
+// Usage: `use std::panic as stdpanic; #[kani::stub(stdpanic::catch_unwind, crate::verif_lib__support::stub_catch_unwind)]`
+pub fn stub_catch_unwind<F: FnOnce() -> R + std::panic::UnwindSafe, R>(f: F) -> std::thread::Result<R> {
+    Ok(f())
+}
+
+// ------------------------------------------------------------------------------------------
 // Formatting and logging-clock stubs.
 pub fn stub_format(_a: std::fmt::Arguments<'_>) -> String {
     String::new()
